@@ -23,11 +23,12 @@ type Config struct {
 	Quota          int    `json:"quota,omitempty"`        // >0: at most this many allocations per user (QuotaHandler)
 	GenFailAt      int    `json:"gen_fail_at,omitempty"`  // >0: the n-th relay allocation attempt fails
 	CallbackSleepS int    `json:"callback_sleep_s,omitempty"`
-	SlowCallback   string `json:"slow_callback,omitempty"`  // which lifecycle callback sleeps
-	StreamWindow   int    `json:"stream_window,omitempty"`  // stream clients' receive window in bytes (0 = unbounded): the server's writes block while that much is unread
-	DualStack      bool   `json:"dual_stack,omitempty"`     // the UDP listener is the dual-stack wildcard socket [::]:3478 and serves both families
-	ServerV6       bool   `json:"server_v6,omitempty"`      // the UDP listener is bound to an IPv6 address
-	Stream         []int  `json:"stream_clients,omitempty"` // client indices that talk to the server over a TCP control connection
+	SlowCallback   string `json:"slow_callback,omitempty"`        // which lifecycle callback sleeps
+	RealGenPorts   int    `json:"real_generator_ports,omitempty"` // > 0: UDP relay sockets come from the library's port-range generator over this many ports
+	StreamWindow   int    `json:"stream_window,omitempty"`        // stream clients' receive window in bytes (0 = unbounded): the server's writes block while that much is unread
+	DualStack      bool   `json:"dual_stack,omitempty"`           // the UDP listener is the dual-stack wildcard socket [::]:3478 and serves both families
+	ServerV6       bool   `json:"server_v6,omitempty"`            // the UDP listener is bound to an IPv6 address
+	Stream         []int  `json:"stream_clients,omitempty"`       // client indices that talk to the server over a TCP control connection
 }
 
 // Step is one scripted action. Everything is symbolic (indices into pools) and resolved against
